@@ -1187,51 +1187,71 @@ def attr_holds(c, r):
     return True, ""
 
 
-def attr_known(c, r=None):
-    """walk the tree for a sub-attribute in one of the recorded defect classes"""
-    def walk(t):
-        k = t[0]
-        if k == "str" and not LEXER_FIXED and any(ch >= 128 for ch in t[1]):
-            return KF_STRING
-        if k == "bytes" and stringy_bytes(t[1]):
-            return KF_BYTES
-        if k == "dense":
-            kid = dense_known({"et": t[2], "shape": t[3], "payloads": t[4]}, None)
-            if kid:
-                return kid
-        if k == "densearray":
-            kid = densearray_known({"et": t[1], "payloads": t[2]}, None)
-            if kid:
-                return kid
-        if k == "dict":
-            for kk, v in t[1]:
-                if not LEXER_FIXED and any(ch >= 128 for ch in kk):
-                    return KF_DICTKEY
-        if k == "noneattr":
-            return KF_NONEATTR          # NoneAttr and NoneType are both spelled `none`
-        if k == "loc" and t[1] == "fused" and len(t) > 3 and t[3]:
-            return KF_FUSED_META        # `fused<metadata>[...]` is printed but not parsed
-        if k == "dense_complex" and "f" in t[1] and any(hex_branch(t[1]["f"], unpack(t[1]["f"], x)) for pr in t[3] for x in pr):
-            return KF_COMPLEX_HEX       # a complex component printed as a hexadecimal integer
-        if k == "dense_resource" and not IDENT_RE.fullmatch(uncps(t[1])):
-            return KF_RESOURCE          # resource handle printed verbatim, parsed as a bare identifier
-        if k == "floatdata" and not FLOAT_LIT_RE.fullmatch(repr(f64(t[1]))):
-            return KF_FLOATDATA         # #builtin.float_data<repr> : nan / inf / 1e+300 are not number literals
-        if k == "loc" and t[1] in ("file", "name") and not LEXER_FIXED and any(ch >= 128 for ch in t[2]):
-            return KF_STRING       # location file names / names are parsed with parse_optional_str_literal
+def node_classes(t):
+    """recorded defect classes of THIS node (not of its descendants)"""
+    k, out = t[0], []
+    if k == "str" and not LEXER_FIXED and any(ch >= 128 for ch in t[1]):
+        out.append(KF_STRING)
+    if k == "bytes" and stringy_bytes(t[1]):
+        out.append(KF_BYTES)            # strings and bytes share one syntax
+    if k == "dense":
+        out.append(dense_known({"et": t[2], "shape": t[3], "payloads": t[4]}, None))
+    if k == "densearray":
+        out.append(densearray_known({"et": t[1], "payloads": t[2]}, None))
+    if k == "dict" and not LEXER_FIXED and any(ch >= 128 for kk, _ in t[1] for ch in kk):
+        out.append(KF_DICTKEY)
+    if k == "noneattr":
+        out.append(KF_NONEATTR)         # NoneAttr and NoneType are both spelled `none`
+    if k == "loc" and t[1] == "fused" and len(t) > 3 and t[3]:
+        out.append(KF_FUSED_META)       # `fused<metadata>[...]` is printed but not parsed
+    if k == "dense_complex" and "f" in t[1] and any(hex_branch(t[1]["f"], unpack(t[1]["f"], x)) for pr in t[3] for x in pr):
+        out.append(KF_COMPLEX_HEX)      # a complex component printed as a hexadecimal integer
+    if k == "dense_resource" and not IDENT_RE.fullmatch(uncps(t[1])):
+        out.append(KF_RESOURCE)         # resource handle printed verbatim, parsed as a bare identifier
+    if k == "floatdata" and not FLOAT_LIT_RE.fullmatch(repr(f64(t[1]))):
+        out.append(KF_FLOATDATA)        # #builtin.float_data<repr> : nan / inf / 1e+300 are not number literals
+    if k == "loc" and t[1] in ("file", "name") and not LEXER_FIXED and any(ch >= 128 for ch in t[2]):
+        out.append(KF_STRING)           # location file names / names are parsed with parse_optional_str_literal
+    return [x for x in out if x]
+
+
+def subtrees(t):
+    """the attribute sub-trees of a case tree, the tree itself first"""
+    out = []
+    if isinstance(t, list) and t and isinstance(t[0], str):
+        out.append(t)
         for x in t[1:]:
             if isinstance(x, list):
                 for y in ([x] if x and isinstance(x[0], str) else x):
                     if isinstance(y, list) and y and isinstance(y[0], str):
-                        kid = walk(y)
-                        if kid:
-                            return kid
+                        out += subtrees(y)
                     elif isinstance(y, list) and len(y) == 2 and isinstance(y[1], list) and y[1] and isinstance(y[1][0], str):
-                        kid = walk(y[1])
-                        if kid:
-                            return kid
-        return None
-    return walk(c["t"])
+                        out += subtrees(y[1])
+    return out
+
+
+def _fails(t):
+    c = {"t": t}
+    return not attr_holds(c, attr_impl(c))[0]
+
+
+def minimal_failing(t):
+    """the sub-attributes that fail the round trip on their own while all of their own parts pass"""
+    bad = [s for s in subtrees(t) if _fails(s)]
+    return [s for s in bad if not any(_fails(x) for x in subtrees(s)[1:])]
+
+
+def attr_known(c, r=None, active=None):
+    """A failing attribute is a known finding only when EVERY minimal failing component of it belongs to a
+    recorded (and, when `active` is given, still unfixed) defect class; returns the id of the first one."""
+    mins = minimal_failing(c["t"])
+    ids = []
+    for s in mins:
+        ks = [k for k in node_classes(s) if active is None or k in active]
+        if not ks:
+            return None
+        ids.append(ks[0])
+    return ids[0] if ids else None
 
 
 def rand_text(rng, ascii_only=False):
@@ -1400,7 +1420,7 @@ def attr_family(ctx, n):
             nontriv += 1
             ctx.nontrivial.add(("attr", repr(c["t"])[:300]))
         if not ok:
-            kid = attr_known(c)
+            kid = attr_known(c, r, active)
             if kid and kid in active:
                 known_hits[kid] = known_hits.get(kid, 0) + 1
             else:
